@@ -146,6 +146,34 @@ func VerifIsPrintableASCII(s string) bool        { return isPrintableASCII(s) }
 func VerifSetStartTLSHook(f func(*tls.Config))   { testHookStartTLS = f }
 func VerifClientRcpts(c *Client) []string        { return append([]string(nil), c.rcpts...) }
 func VerifClientExt(c *Client) map[string]string { return c.ext }
+
+// VerifClientProj is the projection of a Client onto the abstract state of
+// the client specification: greeting and hello progress with their sticky
+// errors, the extension map (nil or its keywords), the name used in the
+// greeting command and the recipient list of the current transaction.
+type VerifClientProj struct {
+	DidGreet, DidHello bool
+	GreetErr, HelloErr error
+	ExtNil             bool
+	Ext                []string
+	LocalName          string
+	Rcpts              []string
+	LMTP               bool
+}
+
+// VerifClientState projects c. It must not be called while a method of c runs.
+func VerifClientState(c *Client) VerifClientProj {
+	p := VerifClientProj{
+		DidGreet: c.didGreet, DidHello: c.didHello,
+		GreetErr: c.greetError, HelloErr: c.helloError,
+		ExtNil: c.ext == nil, LocalName: c.localName,
+		Rcpts: append([]string(nil), c.rcpts...), LMTP: c.lmtp,
+	}
+	for k := range c.ext {
+		p.Ext = append(p.Ext, k)
+	}
+	return p
+}
 func VerifServerDone(s *Server) bool {
 	select {
 	case <-s.done:
